@@ -62,6 +62,7 @@ type Solver struct {
 	dead    bool
 	LastErr string
 	os      *oneShot
+	nassume int
 }
 
 // Start launches a solver. kind: "z3", "z3-new", "cvc5".
@@ -210,11 +211,15 @@ func (s *Solver) Check() Result {
 		s.Stats.add(r, time.Since(t0))
 		return r
 	}
+	return s.checkCmd("(check-sat)\n")
+}
+
+func (s *Solver) checkCmd(cmdText string) Result {
 	if s.dead {
 		return Unknown
 	}
 	t0 := time.Now()
-	s.send("(check-sat)\n")
+	s.send(cmdText)
 	type rl struct {
 		line string
 		err  error
@@ -255,6 +260,32 @@ func (s *Solver) Check() Result {
 	}
 	s.Stats.add(res, time.Since(t0))
 	return res
+}
+
+// CheckAssuming decides pc ∧ t without opening a scope: t is bound to a fresh Boolean
+// constant which is passed as an assumption literal. The model (if sat) can be read
+// directly afterwards.
+func (s *Solver) CheckAssuming(t *sym.Term) Result {
+	if s.os != nil {
+		s.Push()
+		s.Assert(t)
+		r := s.Check()
+		s.Pop()
+		return r
+	}
+	if t.IsTrue() {
+		return s.Check()
+	}
+	if t.IsFalse() {
+		return Unsat
+	}
+	var sb strings.Builder
+	r := s.em.Define(t, &sb)
+	s.nassume++
+	a := fmt.Sprintf("asm%d", s.nassume)
+	fmt.Fprintf(&sb, "(declare-const %s Bool)\n(assert (= %s %s))\n", a, a, r)
+	s.send(sb.String())
+	return s.checkCmd("(check-sat-assuming (" + a + "))\n")
 }
 
 // CheckWith asserts extra terms in a nested scope and checks.
